@@ -1124,8 +1124,8 @@ class Payload(object):
         if not isinstance(method, utils.STRING_TYPES):
             raise ValueError("Method name must be a string.")
 
-        if not self.id:
-            # Generate a request ID
+        if self.id is None or self.id == "":
+            # Generate a request ID (0 is a valid one: keep it)
             self.id = str(uuid.uuid4())
 
         request = {"id": self.id, "method": method}
